@@ -28,7 +28,7 @@ func c18states(m map[string]string) string {
 // output must be the same on all of them.
 func H_C18_maporder() {
 	n := sxParam("n", 4)
-	op := sxChoose("call", 7)
+	op := sxChoose("call", 8)
 	shapeCode = sxParam("shape", 1)
 	t := genTree(n, sxParam("rootedmode", 0), false)
 	shapeCode = -1
@@ -79,6 +79,24 @@ func H_C18_maporder() {
 			s += e.DumpBitSet() + "|"
 		}
 		out = fmt.Sprint(err == nil) + " " + s
+	case 7:
+		// consensus of three trees on 5 taxa with two kept splits: the text must
+		// not depend on anything that changes from process to process (hash seeds)
+		sxOptN("tax-hash-bits", 1)
+		var ts []*tree.Tree
+		for i := 0; i < 3; i++ {
+			// two disjoint cherries: the order in which the two splits are added
+			// to the star tree decides the child order of the consensus
+			tr, err := parseNewick("((t0:1,t1:1):1,t2:1,(t3:1,t4:1):1);")
+			sxAssert(err == nil, "parse")
+			ts = append(ts, tr)
+		}
+		cons, err := tree.Consensus(treesChan(ts), 0.5)
+		if err == nil {
+			out = cons.Newick()
+		} else {
+			out = "error"
+		}
 	case 6:
 		t2 := t.Clone()
 		t2.RotateInternalNodes()
